@@ -33,6 +33,11 @@ type harness struct {
 	// keepLeaks: do not clean up leaked host reservations (the repeated-failure run)
 	keepLeaks bool
 	leaked    []types.SiacoinOutputID
+	// deferConfirm: a committed attempt is not mined at once; pending holds the
+	// rest of its judgement (mining, on-chain checks)
+	deferConfirm bool
+	pending      func() []failure
+	pendingOf    *outcome
 }
 
 var relations = []string{"same", "behind", "fork-ok", "fork-stale", "unknown", "wallet-behind"}
@@ -50,6 +55,20 @@ func (h *harness) usableContract() bool {
 // prepare brings the world into the state a script needs.
 func (h *harness) prepare(s *script) {
 	w := h.w
+	if s.Unmined && s.Kind != "form" {
+		// form a contract and leave its formation transaction in the pool
+		s.Relation, s.Unconf = "same", false
+		w.topUp()
+		w.resync()
+		h.deferConfirm = true
+		h.attempt(script{Kind: "form", Relation: "same", Fault: "none"})
+		h.deferConfirm = false
+		if h.pending == nil {
+			panic("could not form a contract to renew unconfirmed")
+		}
+		return
+	}
+	s.Unmined = false
 	if !h.keepLeaks {
 		w.topUp()
 	}
@@ -77,15 +96,44 @@ func (h *harness) prepare(s *script) {
 	}
 }
 
+// flushPending mines a formation that was left unconfirmed and finishes its judgement.
+func (h *harness) flushPending() {
+	if h.pending == nil || h.deferConfirm {
+		return
+	}
+	pfs, po := h.pending(), h.pendingOf
+	h.pending, h.pendingOf = nil, nil
+	if len(pfs) > 0 && h.shrink && po != nil {
+		h.report(po.Script, po, pfs)
+	}
+}
+
 // attempt prepares, runs, judges and records one script; it returns the
 // kinds of the monitor failures it saw.
 func (h *harness) attempt(s script) []string {
+	if s.Kind == "form" {
+		s.Unmined = false
+	}
+	if s.Unmined {
+		s.Relation, s.Unconf = "same", false
+		if !applicable(s) {
+			return nil
+		}
+	}
 	h.prepare(&s)
 	if !applicable(s) {
+		h.flushPending()
 		return nil
 	}
 	o := h.w.run(s)
 	fs := h.judge(o)
+	if h.deferConfirm && h.pending != nil {
+		h.pendingOf = o
+	}
+	if s.Unmined {
+		// now confirm the formation the attempt ran against
+		h.flushPending()
+	}
 	h.c.Res.Count("kind:" + s.Kind)
 	h.c.Res.Count("relation:" + s.Relation)
 	h.c.Res.Count("fault:" + s.Fault)
@@ -166,7 +214,7 @@ func (h *harness) report(s script, o *outcome, fs []failure) {
 
 func runC16(c *Ctx) {
 	res := c.Res
-	res.Rule = "one attempt = (form|renew|refresh) x basis relation (same tip, renter 3 blocks behind, stale fork the host applied once, stale fork the host only stored, unknown fork, host wallet 3 blocks behind its own chain manager) x fault (stream cut after each of the 4 messages, dial/pool/write failure, corrupted request: wrong/unknown basis, missing parents, underfunded, duplicated inputs, invalid parameters, bad challenge, unknown contract, wrong key; corrupted signatures; host not accepting / out of funds; corrupted host answers) with confirmed or unconfirmed renter inputs and one- or two-output funding; real renter functions against the real host over loopback TCP with separate wallets; non-trivial := the host handler was reached; distinct by script and host call trace"
+	res.Rule = "one attempt = (form|renew|refresh) x basis relation (same tip, renter 3 blocks behind, stale fork the host applied once, stale fork the host only stored, unknown fork, host wallet 3 blocks behind its own chain manager) x fault (stream cut after each of the 4 messages, dial/pool/write failure, corrupted request: wrong/unknown basis, missing parents, underfunded, duplicated inputs, invalid parameters, bad challenge, unknown contract, wrong key; corrupted signatures; host not accepting / out of funds / contract element lookup failing or the contract's formation still unconfirmed; corrupted host answers) with confirmed or unconfirmed renter inputs and one- or two-output funding; real renter functions against the real host over loopback TCP with separate wallets; non-trivial := the host handler was reached; distinct by script and host call trace"
 	h := &harness{c: c, shrink: true, fails: map[string]int{}}
 
 	if c.Replay != "" {
@@ -213,6 +261,9 @@ func runC16(c *Ctx) {
 		{Kind: "form", Relation: "same", Fault: "req-unknown-basis"},
 		{Kind: "renew", Relation: "same", Fault: "dial-fail"},
 		{Kind: "refresh", Relation: "same", Fault: "dial-fail"},
+		{Kind: "renew", Relation: "same", Fault: "none", Unmined: true},
+		{Kind: "refresh", Relation: "same", Fault: "none", Unmined: true, Partial: true},
+		{Kind: "renew", Relation: "same", Fault: "elem-lookup-fail"},
 		{Kind: "form", Relation: "wallet-behind", Fault: "none"},
 		{Kind: "renew", Relation: "wallet-behind", Fault: "none"},
 		{Kind: "refresh", Relation: "wallet-behind", Fault: "none", Partial: true},
@@ -257,6 +308,15 @@ func runC16(c *Ctx) {
 		}
 	}
 
+	// a contract whose formation is still unconfirmed (no state element yet): renewing
+	// or refreshing it must fail and release everything; once mined it succeeds
+	for _, kind := range []string{"renew", "refresh"} {
+		for i := 0; i < 3; i++ {
+			h.attempt(script{Kind: kind, Relation: "same", Fault: "none", Unmined: true, Partial: i%2 == 0, Large: i == 1})
+			h.attempt(script{Kind: kind, Relation: "same", Fault: "none", Partial: i%2 == 0})
+		}
+	}
+
 	// repeated failures must not exhaust the host's spendable outputs: 50
 	// failing attempts in a row, spendable set compared with the start
 	h.w.setRelation("unknown")
@@ -287,13 +347,14 @@ func runC16(c *Ctx) {
 	}
 
 	// random scripts
-	nrand := c.Scale(120, 3000)
+	nrand := c.Scale(80, 3000)
 	for i := 0; i < nrand; i++ {
 		if i%400 == 399 {
 			fresh()
 		}
 		s := script{Kind: kinds[c.R.Intn(3)], Relation: relations[c.R.Intn(len(relations))],
 			Fault: allFaults[c.R.Intn(len(allFaults))], Partial: c.R.Bool(), Unconf: c.R.Chance(1, 3), Large: c.R.Chance(1, 3)}
+		s.Unmined = s.Kind != "form" && c.R.Chance(1, 10)
 		if i < 3 {
 			res.Sample(map[string]any{"script": s.String()})
 		}
